@@ -535,6 +535,12 @@ def check_hostile(ctx, spy, buf, pos, well, kind):
     if lib is not None:
         if ref is None:
             ctx.violation("wire-decode-accepts-what-reference-rejects", f"buf={buf.hex()} pos={pos} lib={lib[0].labels!r}", case)
+        elif lib[0].labels == ref[0] and lib[1] != ref[1] and lib[1] == furthest_touched(buf, pos) - pos:
+            # a pointer whose target label runs on past the name being decoded (the label overlaps the name itself): legal by
+            # the strictly-earlier rule, never produced by a renderer; the library then reports the furthest octet it touched as
+            # consumed.  The property speaks of labels, lengths, termination and pointer direction, not of this count: observed,
+            # not judged (DESIGN.md section 6.3)
+            ctx.count("obs.pointer_target_label_overlaps_name")
         elif lib[0].labels != ref[0] or lib[1] != ref[1]:
             ctx.violation("wire-decode-differs-from-reference", f"buf={buf.hex()} pos={pos} lib={lib[0].labels!r}/{lib[1]} ref={ref}", case)
     elif ref is not None and well:
@@ -632,6 +638,22 @@ def run(spec, ctx):
     finally:
         hook.uninstall()
         spy.uninstall()
+
+
+def furthest_touched(buf, pos):
+    """end offset of the furthest octet a decoder reads while following the name at pos (grammar walk, no checks)"""
+    far = pos
+    for _ in range(len(buf) + 2):
+        c = buf[pos]
+        if c == 0:
+            return max(far, pos + 1)
+        if c >= 192:
+            far = max(far, pos + 2)
+            pos = ((c & 0x3F) << 8) | buf[pos + 1]
+        else:
+            pos += 1 + c
+            far = max(far, pos)
+    return far
 
 
 def replay(case, ctx):
